@@ -37,7 +37,7 @@ ALL_FEATURES = {
     "str_enum", "int_enum", "object", "closed_object", "addl_schema", "map", "array", "set", "tuple", "fixed_array",
     "nullable_type", "nullable_oneof", "nullable_anyof_ref", "ref", "recursion",
     "oneof_external", "oneof_internal", "oneof_adjacent", "oneof_untagged", "anyof_exclusive", "allof_objects",
-    "rename", "defaults", "oneof_optional_const",
+    "rename", "defaults", "oneof_optional_const", "mixed_closedness",
 }
 
 
@@ -300,8 +300,14 @@ class Gen:
             # document cannot be mistaken for an adjacently tagged one (finding C02-F2).
             subs = []
             closed = r.random() < 0.5
+            # full stream only: a mix of closed and open branches in either order (the rejected valid
+            # instances of the open branches are finding C02-F1; what is ACCEPTED must still be valid)
+            mixed = self.has("mixed_closedness") and r.random() < 0.3
+            if mixed:
+                self.tag("mixed_closedness")
             for n, v in enumerate(vn):
-                o = self.obj(names, depth + 1, closed=closed, nprops=2 if n == 0 else r.randrange(0, 3),
+                o = self.obj(names, depth + 1, closed=(r.random() < 0.5) if mixed else closed,
+                             nprops=2 if n == 0 else r.randrange(0, 3),
                              extra_props={"tagg": {"type": "string", "enum": [v]}})
                 subs.append(o)
             return {"oneOf": subs}
